@@ -8,6 +8,8 @@ import math
 import struct
 from fractions import Fraction
 
+import os
+
 import numpy as np
 
 from .. import gen, lib, ops, fmt, scalemodel
@@ -28,7 +30,7 @@ RULE = ('seeded worlds whose numeric channels carry NI_Scale graphs of depth 1-4
         'op history on an eager and a lazy handle (raw snapshot, scaled full read, windows, integer indices, chunk '
         'iteration, raw snapshot again). distinct = (scale graph shape, placement, raw types, segment shapes); '
         'non-trivial = a scaled channel with >= 1 value was evaluated')
-EXPECTED_PROBES = ['placement:channel', 'placement:group', 'placement:root', 'scale:Linear', 'scale:Polynomial', 'scale:Table',
+EXPECTED_PROBES = ['concurrent-readers:switched', 'placement:channel', 'placement:group', 'placement:root', 'scale:Linear', 'scale:Polynomial', 'scale:Table',
                    'scale:Add', 'scale:Subtract', 'status-scaled-shadowing', 'no-number-of-scales', 'daqmx-scaled',
                    'several-scales-read-raw']
 
@@ -170,7 +172,19 @@ def generate(rng, tier):
             else:
                 hist.append({'op': 'chunks', 'ch': path})
     rng.shuffle(hist)
-    return {'spec': spec, 'ops': hist, 'short_seed': rng.getrandbits(32) if rng.random() < 0.2 else None}
+    case = {'spec': spec, 'ops': hist, 'short_seed': rng.getrandbits(32) if rng.random() < 0.2 else None, 'threads': None}
+    scaled = [p for p, ch in w.chans.items() if ch.count and scalemodel.channel_scales(w, p) not in (None, 'unsupported')]
+    if scaled and rng.random() < 0.25:
+        # the eagerly read file is documented as safe to read from concurrently: 2-3 threads read scaled windows of one
+        # channel, interleaved at line granularity inside nptdms by a seeded scheduler
+        path = rng.choice(scaled)
+        n = w.chans[path].count
+        tops = []
+        for _ in range(rng.randint(2, 3)):
+            off = rng.randint(0, max(0, n - 1))
+            tops.append({'op': 'read_data', 'ch': path, 'offset': off, 'length': rng.choice([None, rng.randint(1, n)])})
+        case['threads'] = {'seed': rng.getrandbits(32), 'switch_p': rng.choice([0.05, 0.2, 0.5]), 'ops': tops}
+    return case
 
 
 def expected_scaled(w, path):
@@ -319,6 +333,9 @@ def execute(case):
                         res.violations.append(v)
                 if len(res.violations) > 3:
                     break
+            # concurrent readers of the eagerly read file, one deterministic interleaving
+            if case.get('threads') and not res.violations:
+                res.violations += concurrent_reads(case['threads'], eager, w, res)
             # results already handed out must not change when later reads happen
             for (label, before, after) in keeper.mutated()[:3]:
                 res.violations.append(V('C13.result-aliased', 'the array returned by %s changed after later reads: was %s, now %s' % (
@@ -348,8 +365,44 @@ def execute(case):
     return res
 
 
+def concurrent_reads(th, eager, w, res):
+    from ..threads import Interleaver, InterleaveError
+    out = []
+    alone = []
+    for op in th['ops']:
+        g, exc, eo = ops.try_op(lambda: ops.norm(ops.do_op(eager, w, op)))
+        alone.append((g, exc))
+    il = Interleaver(th['seed'], switch_p=th['switch_p'], trace_prefix=os.path.dirname(lib.nptdms.__file__))
+    try:
+        got = il.run([(lambda op=op: ops.norm(ops.do_op(eager, w, op))) for op in th['ops']])
+    except InterleaveError as exc:
+        return [V('C13.concurrent-hang', 'threads reading the eagerly read file did not finish: %s' % exc)]
+    res.probe('concurrent-readers')
+    if il.switches:
+        res.probe('concurrent-readers:switched')
+    res.steps += il.points
+    res.ev('threads', il.trace[:50], il.points)
+    for op, (g0, e0), r in zip(th['ops'], alone, got):
+        label = {k: v for k, v in op.items() if k != 'ch'}
+        if r[0] == 'exc':
+            if e0 is None:
+                out.append(V('C13.concurrent', '%s on %s raised %s: %s when run concurrently (%d switches), alone it returns %s' % (
+                    label, op['ch'], type(r[1]).__name__, r[1], il.switches, _lazy._short(g0)), exc=type(r[1]).__name__))
+        elif e0 is None and r[1] != g0:
+            out.append(V('C13.concurrent', '%s on %s returns %s when other threads read the same channel at the same time '
+                         '(%d switches), alone it returns %s' % (label, op['ch'], _lazy._short(r[1]), il.switches, _lazy._short(g0))))
+    return out
+
+
 def shrink_candidates(case):
     from ..shrink import spec_candidates, list_candidates
+    if case.get('threads'):
+        c = dict(case)
+        c['threads'] = None
+        yield c
+        c = dict(case)
+        c['ops'] = []
+        yield c
     for o in list_candidates(case['ops']):
         c = dict(case)
         c['ops'] = o
